@@ -835,7 +835,7 @@ func vRunFan[T comparable, C any](ops vSigOps[T, C], out *vOut, cs vFanCase) {
 	for i, e := range evs {
 		evT[i] = fmt.Sprintf("(%d,(%d,(%d,%s)))", e.tag, e.who, e.a, vZList(e.seen))
 	}
-	term := fmt.Sprintf("CFan %d %s %s %s %s %s %s %s %s %s %s", ops.id, vList(capsT), vBool(cs.roIn), vZList(cs.c0),
+	term := fmt.Sprintf("(CFan %d %s %s %s %s %s %s %s %s %s %s)", ops.id, vList(capsT), vBool(cs.roIn), vZList(cs.c0),
 		vList(errsT), vList(labs), vBool(capObs), vList(evT), vList(finals), vBool(ops.isRO(sent)), vNList(gotErr))
 
 	// ---- direct oracle on the final situation ----
